@@ -109,6 +109,56 @@ func ePanicString(p interface{}) string {
 	return fmt.Sprint(p)
 }
 
+var ePayloadCache = map[[2]int][]byte{}
+
+// ePay is ePayload with a cache (payloads are read-only).
+func ePay(id, size int) []byte {
+	k := [2]int{id, size}
+	if b, ok := ePayloadCache[k]; ok {
+		return b
+	}
+	b := ePayload(id, size)
+	ePayloadCache[k] = b
+	return b
+}
+
+// eqConcat reports whether the concatenation of bs equals the model payloads
+// of entries i..i+n-1, without building either.
+func (w *eWorld) eqConcat(bs [][]byte, i, n uint64) bool {
+	bi, off := 0, 0
+	for j := i; j < i+n; j++ {
+		e, ok := w.m.ent(j)
+		if !ok {
+			return false
+		}
+		want := ePay(e.id, e.size)
+		for len(want) > 0 {
+			for bi < len(bs) && off == len(bs[bi]) {
+				bi, off = bi+1, 0
+			}
+			if bi == len(bs) {
+				return false
+			}
+			k := len(bs[bi]) - off
+			if k > len(want) {
+				k = len(want)
+			}
+			if !bytes.Equal(bs[bi][off:off+k], want[:k]) {
+				return false
+			}
+			off += k
+			want = want[k:]
+		}
+	}
+	for bi < len(bs) {
+		if off != len(bs[bi]) {
+			return false
+		}
+		bi, off = bi+1, 0
+	}
+	return true
+}
+
 func (w *eWorld) opts() Options { return Options{FileMode: 0600, SegmentSize: w.seg} }
 
 // eNewWorld opens a log on a fresh directory.  If tr is non-nil it tracks
@@ -233,7 +283,7 @@ func (w *eWorld) addViews() {
 func (w *eWorld) do(op eOp, id int) error {
 	switch op.K {
 	case eAppend:
-		return w.l.Append(ePayload(id, int(op.A)))
+		return w.l.Append(ePay(id, int(op.A)))
 	case eCommit:
 		return w.l.Commit()
 	case eCommitN:
@@ -388,8 +438,8 @@ func (w *eWorld) checkReads(who string, lg *Log, p, last uint64, level int) {
 		default:
 			if err != nil {
 				w.fail(who+".Get", "error-in-range", "Get(%d) error %v; range (%d,%d]", i, err, p, last)
-			} else if want := w.m.payload(i); !bytes.Equal(b, want) {
-				w.fail(who+".Get", "bytes-differ", "Get(%d) returned %s, appended %s", i, w.describe(b), w.describe(want))
+			} else if e, _ := w.m.ent(i); !bytes.Equal(b, ePay(e.id, e.size)) {
+				w.fail(who+".Get", "bytes-differ", "Get(%d) returned %s, appended %s", i, w.describe(b), w.describe(w.m.payload(i)))
 			}
 		}
 	}
@@ -416,9 +466,8 @@ func (w *eWorld) checkReads(who string, lg *Log, p, last uint64, level int) {
 				w.fail(who+".GetN", "error-in-range", "GetN(%d,%d) error %v; range (%d,%d]", i, n, err, p, last)
 				return
 			}
-			got := bytes.Join(bs, nil)
-			if want := w.m.concat(i, n); !bytes.Equal(got, want) {
-				w.fail(who+".GetN", "bytes-differ", "GetN(%d,%d) returned %d buffers %s, appended %s", i, n, len(bs), w.describe(got), w.describe(want))
+			if !w.eqConcat(bs, i, n) {
+				w.fail(who+".GetN", "bytes-differ", "GetN(%d,%d) returned %d buffers %s, appended %s", i, n, len(bs), w.describe(bytes.Join(bs, nil)), w.describe(w.m.concat(i, n)))
 			}
 			if len(bs) > 1 {
 				w.stats["getn_spanning_segments"]++
@@ -528,16 +577,19 @@ func (w *eWorld) evalState() {
 	}
 	// views held since earlier states (the writer only appended/committed since)
 	for _, v := range w.views {
+		if v.born == len(w.hist) {
+			continue // opened in this very state: identical to the fresh view of that range checked above
+		}
 		w.checkReads("view", v.v, v.p, v.l, 1)
 		w.stats["views_checked"]++
-		if v.born < len(w.hist) {
-			w.stats["older_views_checked"]++
-		}
+		w.stats["older_views_checked"]++
 	}
 }
 
 // checkLayout compares the in-memory segment chain and the directory with the
-// layout implied by the documented roll-over rule.
+// layout implied by the documented roll-over rule.  The commit status
+// (synced) is deliberately not compared: it is not observable through the
+// read API (C13); what must be durable is decided by C14 on crash images.
 func (w *eWorld) checkLayout() {
 	m := w.m
 	var got []string
@@ -545,7 +597,7 @@ func (w *eWorld) checkLayout() {
 	ok := true
 	pan := eProtect(func() {
 		for s := w.l.first; s != nil; s = s.next {
-			got = append(got, fmt.Sprintf("(%d,%d,%d,%d,%d)", s.prevIndex, s.n, len(s.file.Data), s.size, s.synced))
+			got = append(got, fmt.Sprintf("(%d,%d,%d,%d)", s.prevIndex, s.n, len(s.file.Data), s.size))
 			if s.prev != prev {
 				ok = false
 			}
@@ -560,7 +612,7 @@ func (w *eWorld) checkLayout() {
 	})
 	var want []string
 	for _, s := range m.segs {
-		want = append(want, fmt.Sprintf("(%d,%d,%d,%d,%d)", s.prev, s.n, s.fsize, s.dsize, s.synced))
+		want = append(want, fmt.Sprintf("(%d,%d,%d,%d)", s.prev, s.n, s.fsize, s.dsize))
 	}
 	if pan != nil {
 		w.fail("layout", "panic", "walking the segment chain panics: %s", ePanicString(pan))
@@ -570,7 +622,7 @@ func (w *eWorld) checkLayout() {
 		w.fail("layout", "chain-links-inconsistent", "prev/next/first/last pointers inconsistent; segments %v", got)
 	}
 	if strings.Join(got, "") != strings.Join(want, "") {
-		w.fail("layout", "segments-differ", "segments (prev,n,filesize,datasize,synced) are %v, documented roll-over rule gives %v", got, want)
+		w.fail("layout", "segments-differ", "segments (prev,n,filesize,datasize) are %v, documented roll-over rule gives %v", got, want)
 	}
 	if w.l.opt.SegmentSize != m.opt {
 		w.fail("layout", "segment-size-option", "opt.SegmentSize=%d, model %d", w.l.opt.SegmentSize, m.opt)
